@@ -20,7 +20,7 @@ OPNAME = {1: 'addColumnsByConstant', 2: 'addColumns', 3: 'addSelection', 4: 'del
           29: 'setName(list)', 30: 'setNameByLocator', 31: 'deleteSamples', 32: 'setColumnByUID', 33: 'setColumnByColIdx',
           34: 'setColumn', 35: 'setValueByColIdx', 36: 'setFromLocator', 37: 'addColumnsByVVD', 38: 'addSelection(combine)',
           39: 'addSelectionByRanks', 40: 'addSelectionByLimit', 50: 'Db::createFromSamples', 51: 'Db::createFromBox',
-          52: 'Db::createFillRandom', 53: 'DbGrid::create', 54: 'DbGrid::createSubGrid'}
+          52: 'Db::createFillRandom', 53: 'DbGrid::create', 54: 'DbGrid::createSubGrid', 55: 'DbGrid::createCoarse/Refine'}
 BITS = {1: 'names-unique', 2: 'sizes', 4: 'uid-table', 8: 'name-designator', 16: 'roles', 32: 'role-counts',
         64: 'active-count', 128: 'column-designators', 256: 'role-postcondition', 512: 'frame', 1024: 'selected-cells-count'}
 # reason codes of Spec.why_not -> canonical key of the call site + circumstance, and the bits that circumstance explains
@@ -174,6 +174,34 @@ class Shadow:
             self.make_grid([b - a for a, b in lims], dx, [x0[i] + dx[i] * lims[i][0] for i in range(len(nx))], [], [], [], True, coords)
             for n in kept: self.add_cols(1, n, -1, 0, 0)
             return 0
+        if k == 55:
+            if not self.grid: return 0
+            refine, nx, dx, x0, nm, cell, rank = o[1:8]
+            src = [(c, self.names[c]) for c in range(self.ncol)
+                   if not (rank and c == 0) and not any(self.uid_of_col(c) in self.loc[X][i:i + 1] for i in range(len(self.loc[X])))]
+            roles = {}
+            for c, _ in src:
+                u = self.uid_of_col(c)
+                roles[c] = next(((t, l.index(u)) for t, l in self.loc.items() if u in l), None)
+            nxo = [(n * m if cell else 1 + (n - 1) * m) if refine else (n // m if cell else 1 + (n - 1) // m) for n, m in zip(nx, nm)]
+            self.make_grid(nxo, dx, x0, [], [], [], rank, True)
+            ndx = [Fraction(d) / m if refine else Fraction(d) * m for d, m in zip(dx, nm)]
+            nx0 = [Fraction(a) + (Fraction(d) * Fraction(1 - m, 2 * m) if refine else Fraction(d) * Fraction(m - 1, 2)) if cell else Fraction(a)
+                   for a, d, m in zip(x0, dx, nm)]
+            ok = all(v.denominator == 1 for v in ndx + nx0)
+            # a mesh or an origin that is not an integer: no further grid-to-grid command is generated on this grid
+            self.grid = (nxo, [int(v) for v in ndx], [int(v) for v in nx0]) if ok else (nxo, None, None)
+            r = 0
+            if src:
+                base = self.ncol
+                self.add_cols(len(src), '', -1, 0, 0)
+                for i, (c, n) in enumerate(src): self.set_name_at(base + i, n)
+                self.loc[Z] = []
+                for i in range(len(src)): r = r or self.set_loc1(base + i, Z, i)
+                for i, (c, n) in enumerate(src):
+                    t, k = roles[c] if roles[c] else (-1, 0)
+                    r = r or self.set_loc1(self.uid_of_col(base + i), t, k)
+            return r
         return 0
     def make_grid(self, nx, dx, x0, tab, names, locs, rank, coords):
         ne = 1
@@ -321,9 +349,8 @@ class Gen:
         self.rng = rng; self.strict = strict
         self.use_sel = rng.random() < .5
         self.use_na = rng.random() < .6
-        # strict histories that use selections keep their cells in {0, 1, NA}: getColumn*(useSel) and the active count
-        # agree only there (finding getColumnByColIdx:useSel-selection-not-one)
-        self.binary = strict and self.use_sel
+        self.binary = False        # selections may hold any value (one rule since the fix of getColumnByColIdx:useSel-selection-not-one)
+        self.abstract = False      # set once a creator with random (abstracted) values has been used: their cells must not be read
         if strict and rng.random() < .5:
             self.single = ['a', 'b', 'c']; self.multi = ['p', 'q']; self.targets = ['a', 'b', 'd', 'e']
         else:
@@ -443,29 +470,31 @@ class Gen:
             n = ne if ne else r.choice([1, 2])
             t = self.typ() if r.random() < .5 else -1
             return [34, [self.val() for _ in range(n * r.choice([1, 1, 2]) + r.choice([0, 0, 0, 1]))], S(r.choice(self.targets + ['n1', 'n2'])),
-                    t, self.index(sh, t), False]
+                    t, self.index(sh, t), ne > 0 and r.random() < .3]
         if kind == 35: return [35, self.sample(sh), self.col(sh), self.val()]
         if kind == 36: return [36, self.typ(False), self.sample(sh), r.choice([0, 0, 1, 2]), self.val()]
         if kind == 37:
             n = ne if ne else r.choice([1, 2]); m = r.choice([1, 1, 2, 3])
             tabs = [[self.val() for _ in range(n)] for _ in range(m)]
-            if r.random() < .1: tabs[-1] = tabs[-1][:-1]
+            if r.random() < .1: tabs[-1] = tabs[-1][:-1]          # unequal vectors, possibly an empty one: refused when no sample results
             t = self.typ() if r.random() < .6 else -1
-            return [37, tabs, S(r.choice(self.multi)), t, self.index(sh, t) if r.random() < .6 else 0, (not sh.loc[SEL]) and r.random() < .3]
+            # useSel on a Db without sample: the library reads the selection in the not yet resized array (excluded)
+            return [37, tabs, S(r.choice(self.multi)), t, self.index(sh, t) if r.random() < .6 else 0, ne > 0 and r.random() < .3]
         if kind in (38, 39, 40) and not self.use_sel: return [35, self.sample(sh), self.col(sh), self.val()]
         cmb = r.choice([0, 0, 1, 2, 3, 4, 7])
         if kind == 38:
             tab = [] if r.random() < .3 else [self.val() for _ in range(ne + r.choice([0, 0, 0, 0, 1]))]
             return [38, tab, S(r.choice(['s', 'sel', 'a'])), cmb]
         if kind == 39: return [39, [r.randrange(ne) for _ in range(r.choice([0, 1, 2]))] if ne else [], S(r.choice(['s', 'r'])), cmb]
-        lo, hi = r.choice([[], 0, 1, 2]), r.choice([[], 2, 5, 8])
+        if self.abstract: return [35, self.sample(sh), self.col(sh), self.val()]
+        lo, hi = r.choice([[], 0, 1]), r.choice([[], 2, 5, 8])
         return [40, S(self.existing_name(sh)), r.random() < .8, lo, hi, S(r.choice(['s', 'lim'])), cmb]
     def locstrs(self, n):
         r = self.rng
         return [[r.choice([-1, X, X, Z, Z, V, F, 7, 8, 9, SEL if self.use_sel else Z]), r.choice([-1, 0, 1, 1, 2, 3])] for _ in range(n)]
     def creator(self, sh):
         r = self.rng
-        k = r.choice([50, 50, 51, 52, 53, 53, 53] + ([54, 54, 54] if sh.grid else []))
+        k = r.choice([50, 50, 51, 52, 53, 53, 53] + ([54, 54, 54, 55, 55, 55] if (sh.grid and sh.grid[1] is not None) else []))
         if k == 50:
             ne = r.choice([1, 2, 3, 4]); ntab = r.choice([0, 1, 2, 3])
             tab = [self.val() for _ in range(ne * ntab)]
@@ -473,6 +502,7 @@ class Gen:
             names = [S(r.choice(self.single + self.targets)) for _ in range(ntab)] if r.random() < .6 else []
             locs = self.locstrs(ntab) if r.random() < .6 else []
             return [50, ne, r.random() < .5, tab, names, locs, r.random() < .6]
+        if k in (51, 52, 55): self.abstract = True      # random draws, interpolated values, non-integer coordinates
         if k == 51: return [51, r.choice([1, 2, 3]), r.choice([1, 2, 3]), r.random() < .6]
         if k == 52:
             nvar = r.choice([1, 2])
@@ -490,6 +520,10 @@ class Gen:
             return [53, nx, [r.choice([1, 2]) for _ in range(nd)], [r.choice([0, 10, -5]) for _ in range(nd)], r.random() < .5,
                     tab, names, locs, r.random() < .6, r.random() < .7]
         nx, dx, x0 = sh.grid
+        if k == 55:
+            refine = r.random() < .4; cell = r.random() < .6
+            nm = [r.choice([1, 2]) if refine else (r.randint(1, n) if cell else r.choice([1, 2, 3])) for n in nx]
+            return [55, refine, nx, dx, x0, nm, cell, r.random() < .6]
         lims = []
         for n in nx:
             a = r.randrange(n); lims.append([a, r.randint(a + 1, n)])
@@ -542,9 +576,11 @@ def run_lines(ctx, exe, runner, cases, tag):
 
 def spec_on_impl(ctx, runner, hist, impl_obs):
     """spec bits (extracted Coq) for each step of hist, evaluated on the implementation's observations"""
-    cases = []; prev = INIT_OBS
+    cases = []; prev = INIT_OBS; grid = False
     for o, ob in zip(hist, impl_obs):
-        cases.append([1, o, prev, ob]); prev = ob
+        cases.append([1, grid, o, prev, ob]); prev = ob
+        if o[0] in (50, 51, 52): grid = False
+        elif o[0] == 53: grid = True       # 54 / 55 keep a grid a grid and do nothing on a plain Db
     cf = write_cases(ctx, 'spec', cases)
     rc, res = run_model(ctx, runner, cf)
     return [r[0] if len(r) == 1 else -1 for r in res]
@@ -565,6 +601,12 @@ def lowbit(b):
     for w, n in sorted(BITS.items()):
         if b & w: return n
     return 'none'
+
+def disagree_key(op, bits):
+    """key of a breach of the implementation that the model does not have: call site + lowest violated clause; the
+    selected-cells clause keeps the key of the repaired defect it comes back as"""
+    if lowbit(bits) == 'selected-cells-count': return 'getColumnByColIdx:useSel-selection-not-one'
+    return '%s:%s' % (OPNAME[op[0]], lowbit(bits))
 
 def breaches(bits):
     """steps where the observations turn from clean (0) to dirty"""
@@ -590,7 +632,8 @@ class Evaluator:
                 print('ERROR: model rejected case %d: %s' % (i, sx_str([0, h])[:300])); sys.exit(3)
             mobs_txt, flags = split_model_line(ml)
             il = impl[i]
-            r = {'flags': flags, 'crash': il is None or il.startswith('(-99'), 'mobs_txt': mobs_txt}
+            r = {'flags': flags, 'crash': il is None or il.startswith('(-99'), 'mobs_txt': mobs_txt,
+                 'ub': any(f[1] == 9 for f in flags)}      # a call outside the domain of the library: never a witness
             if not r['crash'] and il[1:-1] == mobs_txt:
                 r['agree'] = True; r['bits'] = [f[0] for f in flags]; r['impl_obs'] = None
             else:
@@ -667,8 +710,8 @@ def simpler_args(hist):
 def directed_tests(ctx, exe):
     """post-conditions checked directly on the library (no model), one harness process per test:
     createCoarse / createRefine must carry over, by name and role, the non-coordinate columns of the input grid;
-    a designation by a name that is not a valid regular expression, and addColumns(useSel) with every sample masked,
-    must not kill the process"""
+    addColumns with a null sample count (every sample masked with useSel; fewer values than vectors on an empty Db)
+    must be refused, not kill the process (regression tests of repaired defects: the old keys fire again)"""
     found = False
     def one(case, tag):
         cf = write_cases(ctx, tag, [case])
@@ -690,16 +733,13 @@ def directed_tests(ctx, exe):
                 key = 'migrateAllVariables:colidx-as-uid' if deleted else 'directed:%s' % fn
                 ctx.violation(key, what, {'how': 'harness/C07.cpp case (2 %d %d)' % (refine, deleted), 'source_columns': src, 'new_grid_columns': out})
                 found = True
-    ctx.count('directed-regex'); ctx.dist('directed_crash_probe', 2)
-    if one([3], 'dir') is None:
-        ctx.violation('name-lookup:regex-error-uncaught', 'Db::getColIdx("a[") (any designation by a name that is neither an existing column nor a valid '
-                      'regular expression) ends the process: std::regex_error is not caught', {'how': 'harness/C07.cpp case (3)'})
-        found = True
-    ctx.count('directed-usesel')
-    if one([4], 'dir') is None:
-        ctx.violation('addColumns:useSel-no-active-sample', 'Db::addColumns(tab, name, type, 0, useSel=true) on a Db whose selection masks every sample '
-                      'ends the process: integer division by getSampleNumber(true) = 0', {'how': 'harness/C07.cpp case (4)'})
-        found = True
+    for kind, what in ((4, 'Db::addColumns(tab, name, type, 0, useSel=true) on a Db whose selection masks every sample'),
+                       (5, 'Db::addColumnsByVVD({{1.},{}}, "p", ELoc::UNKNOWN) (fewer values than vectors) on an empty Db')):
+        ctx.count('directed-division-%d' % kind); ctx.dist('directed_crash_probe')
+        if one([kind], 'dir') is None:
+            ctx.violation('addColumns:zero-sample-count-division', what + ' ends the process: Db::addColumns divides by getSampleNumber(useSel) = 0',
+                          {'how': 'harness/C07.cpp case (%d)' % kind})
+            found = True
     return found
 
 def load_corpus(ctx):
@@ -710,6 +750,8 @@ def load_corpus(ctx):
 def describe(hist): return ' ; '.join('%s%s' % (OPNAME.get(o[0], '?'), pretty_args(o)) for o in hist)
 def pretty_args(o):
     def p(x):
+        if isinstance(x, list) and x and o[0] in (15, 27, 29, 50, 53) and all(isinstance(y, list) and y and all(isinstance(c, int) and 32 <= c < 127 for c in y) for y in x):
+            return '[' + ','.join('"%s"' % unS(y) for y in x) + ']'
         if isinstance(x, list):
             if x and all(isinstance(c, int) and 32 <= c < 127 for c in x) and o[0] in (1, 2, 3, 6, 11, 15, 18, 19, 20, 24, 27, 29, 30, 34, 37, 38, 39, 40): return '"%s"' % unS(x)
             return '[' + ','.join(p(y) for y in x) + ']' if x else 'NA/[]'
@@ -768,7 +810,11 @@ def run(ctx):
                 ctx.sample({'history': describe(h)[:400], 'agree': r['agree'], 'bits_per_step': r['bits']})
             if r['crash']:
                 ndis += 1; found_input = True
-                small = ddmin(ev, h, lambda c, rr: rr['crash'])
+                # the crashing call is the last one of the shortest crashing prefix; shrink what precedes it
+                pre = ev.eval([h[:n] for n in range(1, len(h) + 1)], 'prefix')
+                cut = next((n for n, rr in enumerate(pre) if rr['crash']), len(h) - 1)
+                if any(v[0] == 'crash:' + OPNAME[h[cut][0]] for v in ctx.violations): continue
+                small = ddmin(ev, h[:cut + 1], lambda c, rr: rr['crash'] and not rr['ub'])
                 ctx.violation('crash:' + OPNAME[small[-1][0]], 'the harness crashed / produced no answer on a history the model accepts: ' + describe(small),
                               {'case': sx_str([0, small]), 'history': describe(small)})
                 continue
@@ -783,19 +829,19 @@ def run(ctx):
                 if hit:
                     b0 = hit[0]
                     extra = 1023 if bits[b0] == -1 else (bits[b0] & ~mbits[b0])
-                    key0 = '%s:%s' % (OPNAME[h[b0][0]], lowbit(extra))
+                    key0 = disagree_key(h[b0], extra)
                     found_input = True
                     if any(v[0] == key0 for v in ctx.violations) or key0 in [kk for kk, _ in ctx.known]:
                         ctx.violation(key0, '', None); continue
                     def pred(c, rr, extra=extra):
-                        if rr['crash'] or rr['agree']: return False
+                        if rr['crash'] or rr['agree'] or rr['ub']: return False
                         return rr['bits'][-1] == -1 or (rr['bits'][-1] & ~rr['flags'][-1][0] & extra) != 0
                     small = ddmin(ev, h[:b0 + 1], pred) if nshrink < 12 else h[:b0 + 1]
                     nshrink += 1
                     rs = ev.eval([small], 'final')[0]
                     sb = (rs['bits'][-1] & ~rs['flags'][-1][0]) if (rs['bits'] and rs['bits'][-1] != -1) else extra
                     ob = rs['impl_obs'][-1] if rs['impl_obs'] else INIT_OBS
-                    key = '%s:%s' % (OPNAME[small[-1][0]], lowbit(sb & extra if sb & extra else sb))
+                    key = disagree_key(small[-1], sb & extra if sb & extra else sb)
                     ctx.violation(key, 'the real Db breaks the table property (%s) where the model keeps it, after: %s' % (bitnames(sb), describe(small)),
                                   {'case': sx_str([0, small]), 'history': describe(small), 'violated': bitnames(sb),
                                    'impl_observation_after_last_op': sx_str(ob)[:2000],
@@ -822,7 +868,7 @@ def run(ctx):
                     ctx.violation(key0, '', None); continue      # already known / reported: no shrinking needed
                 target = bits[b0]; rsn = reasons[b0]
                 def pred2(c, rr, target=target, rsn=rsn):
-                    if rr['crash'] or not rr['agree']: return False
+                    if rr['crash'] or not rr['agree'] or rr['ub']: return False
                     bb = rr['bits']
                     return bb[-1] != 0 and (len(bb) < 2 or bb[-2] == 0) and (bb[-1] & target) != 0 and rr['flags'][-1][1] == rsn
                 small = ddmin(ev, h[:b0 + 1], pred2)
@@ -837,10 +883,12 @@ def run(ctx):
                     found_input = True
     found_input = directed_tests(ctx, exe) or found_input
     ctx.cov['steps'] = nsteps; ctx.cov['disagreements'] = ndis; ctx.cov['invariant_breaches_seen'] = nbreach
-    ctx.cov['rule'] = ('case = one operation history (1..60 public Db editing calls on an initially empty Db); after EVERY call 16 getter families are '
-                       'compared textually with the extracted model and the invariant/postcondition/frame checks (extracted Coq) are evaluated; '
-                       '70% strict histories (inside the only guard left in C07_step: locator rank <= current count), 30% wild (rank beyond the '
-                       'count); both kinds use deleted uids, arbitrary icols, names colliding as patterns, NA selections; distinct = distinct history text')
+    ctx.cov['rule'] = ('case = one history of 1..60 public calls on an initially empty Db: 40 editors (Db.cpp) and 5 creators (createFromSamples, '
+                       'createFromBox, createFillRandom, DbGrid::create, DbGrid::createSubGrid; random values abstracted); after EVERY call 18 getter '
+                       'families are compared textually with the extracted model and the invariant / selected-cells / role post-condition / frame '
+                       'checks (extracted Coq) are evaluated; 70% strict histories (inside the only guard left in C07_step: locator rank <= current '
+                       'count; selections kept in {0,1,NA}), 30% wild; plus 5 directed tests without model (createCoarse/createRefine carry over '
+                       'names and roles; addColumns with a zero sample count); distinct = distinct history text')
     if not proofs_ok: proof_break_violation(ctx, found_input)
     # the case files of this run are large (every observation of every step) and every witness is stored,
     # self-contained, under replays/: do not leave them behind
@@ -853,10 +901,15 @@ def run(ctx):
         'harness/C07.cpp: one public Db call per operation + 16 getter families after each call; library messages silenced through redefine_message/redefine_error',
         'observation-level spec (coq/C07/Spec.v, extracted) is the search oracle: check_obs is proved sound for Inv (C07_obs_sound); '
         'post_bits / frame_bits are the observation-level renderings of C07_setlocs_post / C07_frame, validated by the runs and by mutation tests only']
-    ctx.assumptions = ['names over [A-Za-z0-9._-] only (the model of std::regex treats "." as the only metacharacter)',
-                       'GlobalEnvironment domain reference off (default); plain Db (mayChangeSampleNumber() true); DbGrid not modelled',
+    ctx.assumptions = ['a name used as designator is either the name of an existing column (any characters: exact match has priority) or a pattern '
+                       'over [A-Za-z0-9._-], where "." is the only metacharacter; an invalid regular expression makes the library throw std::regex_error',
+                       'GlobalEnvironment domain reference off (default); DbGrid without rotation, integer mesh and origin; createCoarse/createRefine not modelled '
+                       '(directed post-condition test only); random / interpolated cell values abstracted to one marker',
                        'cell values are small integers or NA: no editor computes on them',
-                       'arguments that make the library itself undefined (clean=true with ELoc::UNKNOWN -> _p[-1]; negative nechInit) are excluded']
+                       'arguments that make the library itself undefined are excluded (clean=true with ELoc::UNKNOWN -> _p[-1]; negative nechInit; vectors '
+                       'shorter than what setColumnBy* / createFromSamples names and role strings read; ranks outside the Db in addSelectionByRanks; '
+                       'negative locator rank in setFromLocator; Limits with lower >= upper bound; addColumns*(useSel=true) on a Db holding columns and a '
+                       'selection but no sample: the selection is read in the not yet resized array)']
 
 if __name__ == '__main__':
     main(run)
